@@ -64,6 +64,18 @@ func VerifRegistrySize(t FTransport) int {
 	return len(r.channels)
 }
 
+// VerifLockRegistry takes the write lock of the transport's client registry,
+// as a slow Register or Unregister of another request would, and returns the
+// function that releases it (a no-op pair if the transport has no registry).
+func VerifLockRegistry(t FTransport) func() {
+	r, ok := verifRegistryOf(t).(*fRegistryImpl)
+	if !ok || r == nil {
+		return func() {}
+	}
+	r.mu.Lock()
+	return r.mu.Unlock
+}
+
 // VerifRegistry exposes the unexported client registry.
 type VerifRegistry struct{ r fRegistry }
 
